@@ -10,6 +10,9 @@ import Verif.Model.Revocation
           renewal the decimal serial of the certificate; fault = n | b | a;   E = `s<thread>` | `r0`
       output: one answer per request joined by `,` (ok already err revoked rerr other allowed drop pend bad),
           then ` x=[<key>=<tag>,…] s=[…]` — both revoked tables sorted by key
+  `a key=x<hex> reqs=<R>;…`   a sequential history on one certificate: R = `v:<signer o|a|k|x>:<reason|->:<tag>` (ACME revoke-cert signed by
+      the owning account / another account / the certificate key / another key) | `m:<tag>` (revocation over mTLS) | `n` (renew or rekey);
+      output: answers (ok already unauthorized badreason err revoked allowed) joined by `,` then ` x=[…]`
   `v s=x<hex>`     RevokeRequest.Validate's serial canonicalisation: `x<hex>` | `bad`
   `vs s=x<hex>`    SSHRevokeRequest.Validate's serial canonicalisation: `x<hex>` | `bad`
 -/
@@ -87,6 +90,30 @@ def eval (line : String) : Option String := do
     match canonSerial (← str? (← lookup kv "s")) with
     | some c => pure ("x" ++ hex c)
     | none => pure "bad"
+  | some "a" =>
+    let key ← str? (← lookup kv "key")
+    let reqs := (← lookup kv "reqs").splitOn ";"
+    let one (kind : Kind) (tag : Nat) (g : G) : G × Out :=
+      let r : Req := { inp := { kind := kind, key := key, tag := tag, fault := .none, crlFails := false, otherOK := true } }
+      let s := machine.run (g, [r]) [.step 0, .step 0, .step 0]
+      (s.1, (s.2.map (·.out)).headD .err)
+    let rec go (g : G) (acc : List String) : List String → Option (G × List String)
+      | [] => some (g, acc.reverse)
+      | t :: ts =>
+        match t.splitOn ":" with
+        | ["n"] => let r := one .renewX 0 g; go r.1 (outS r.2 :: acc) ts
+        | ["m", tag] => do let r := one (.revokeX false) (← tag.toNat?) g; go r.1 (outS r.2 :: acc) ts
+        | ["v", sg, reason, tag] => do
+          let signer ← match sg with
+            | "o" => some AcmeSigner.owner | "a" => some .otherAccount | "k" => some .certKey | "x" => some .otherKey | _ => none
+          let reason ← if reason = "-" then some none else reason.toInt?.map some
+          let r := acmeRevoke g key (← tag.toNat?) signer reason
+          let a := match r.2 with
+            | .ok => "ok" | .already => "already" | .unauthorized => "unauthorized" | .badReason => "badreason" | .err => "err"
+          go r.1 (a :: acc) ts
+        | _ => none
+    let (g, answers) ← go { x509 := [], ssh := [] } [] reqs
+    pure (String.intercalate "," answers ++ " x=" ++ tableS g.x509 ++ " s=" ++ tableS g.ssh)
   | some "vs" =>
     match canonSSHSerial (← str? (← lookup kv "s")) with
     | some c => pure ("x" ++ hex c)
